@@ -25,6 +25,7 @@ def dispatch (fields : List String) : Verdict :=
   | "C19" :: rest => handleC19 rest
   | "C15" :: rest => handleC15 rest
   | "C16" :: rest => handleC16 rest
+  | "C17" :: rest => handleC17 rest
   | "C02" :: rest => handleC02 rest
   | "C03" :: rest => handleC03 rest
   | "C04" :: rest => handleC04 rest
